@@ -436,3 +436,75 @@ def dry_files(lang, u, nfiles, n, noise):
         files[name] = "\n".join(lines) + "\n"
         runs[name] = (at[0], at[-1], at)
     return files, runs
+
+
+# ------------------------------------------------------------------------------------ constant sets (DRY's duplicate / similar constants)
+
+
+def const_files(lang, u, nfiles, forms, leads):
+    """nfiles files that each define the module constants API_TIMEOUT_<u>_SECONDS and MAX_RETRY_<u>_COUNT (values differ per
+    file) in one of several declaration layouts, below a varying number of comment lines.
+    -> ({name: text}, {name: {constant name: 1-based line of its declarator}})"""
+    c = seeds.COMMENT[lang]
+    a, b = f"API_TIMEOUT_{u}_SECONDS", f"MAX_RETRY_{u}_COUNT"
+    files, at = {}, {}
+    for k in range(nfiles):
+        lines = [f"{c} note {i} for file {k}" for i in range(leads[k % len(leads)])]
+        if lines:
+            lines.append("")
+        form = forms[k % len(forms)] % 4
+        va, vb = 30 + k, 5 + k
+        pos = {}
+        if lang == "py":
+            if form == 0:
+                pos[a] = len(lines) + 1
+                lines.append(f"{a} = {va}")
+                pos[b] = len(lines) + 1
+                lines.append(f"{b} = {vb}")
+            elif form == 1:
+                pos[a] = len(lines) + 1
+                lines += [f"{a} = (", f"    {va}", ")"]
+                pos[b] = len(lines) + 1
+                lines.append(f"{b} = {vb}")
+            elif form == 2:
+                pos[a] = len(lines) + 1
+                lines.append(f"{a}: int = {va}")
+                pos[b] = len(lines) + 1
+                lines.append(f"{b}: int = {vb}")
+            else:
+                lines.append(f"import os  {c} first statement of file {k}")
+                lines.append("")
+                pos[a] = len(lines) + 1
+                lines.append(f"{a} = {va}  {c} seconds")
+                lines.append("")
+                pos[b] = len(lines) + 1
+                lines.append(f"{b} = {vb}")
+            lines += ["", "", f"def use_{u}_{k}(x):", f"    return x * {a} + {b}"]
+        else:
+            if form == 0:
+                pos[a] = len(lines) + 1
+                lines.append(f"export const {a} = {va};")
+                pos[b] = len(lines) + 1
+                lines.append(f"const {b} = {vb};")
+            elif form == 1:
+                pos[a] = len(lines) + 1
+                lines.append(f"const {a} = {va},")
+                pos[b] = len(lines) + 1
+                lines.append(f"    {b} = {vb};")
+            elif form == 2:
+                lines.append("export const")
+                pos[a] = len(lines) + 1
+                lines.append(f"    {a} = {va};")
+                lines.append("const")
+                pos[b] = len(lines) + 1
+                lines.append(f"    {b} = {vb};")
+            else:
+                pos[a] = len(lines) + 1
+                lines += [f"const {a} =", f"    {va};"]
+                pos[b] = len(lines) + 1
+                lines.append(f"const {b} = {vb};  {c} attempts")
+            lines += ["", f"export function use_{u}_{k}(x{_ann(lang, 'number')}) {{", f"    return x * {a} + {b};", "}"]
+        name = f"consts{u}_{k}{seeds.EXT[lang]}"
+        files[name] = "\n".join(lines) + "\n"
+        at[name] = pos
+    return files, at
